@@ -399,7 +399,7 @@ def check_bw_brute_force(rep, dbg):
     t_ = T.bv(0)
     cb = T.bv(1)
     eta = lambda d: R2.eta(cb, d)
-    is_pp = ('matches', R2.F(cb, 'kind'), 'ros2::rr::CallbackType::Polled(_)|ros2::rr::CallbackType::PolledUnknownPrio')
+    is_pp = R2.is_pp_cond(R2.F(cb, 'kind'))
     is_eoc = ('ptreq', *sorted([cb, EOC], key=T.key))
     pred_eoc = T.tand(is_eoc, T.tnot(T.eq0(T.sub(eta(t_), eta(T.add(t_, T.const(1)))))))
     pred_cb = T.tand(T.tnot(is_eoc), is_pp, T.cmp('Gt', t_, T.const(0)), T.tnot(T.eq0(T.sub(eta(T.sub(t_, T.const(1))), eta(t_)))))
